@@ -578,7 +578,12 @@ pub fn decode_ops(t: &mut Tape, max_elems: usize) -> Vec<IOp> {
                 let n = if big_runs < 1 && t.chance(6) {
                     big_runs += 1;
                     tail = Some(2 + t.below(6));
-                    [65535usize, 65536, 65537, 70000][t.below(4)]
+                    if crate::spec::light() {
+                        // under the coverage-guided fuzzer: shorter (executions stay fast)
+                        [4095usize, 4096, 4097, 5000][t.below(4)]
+                    } else {
+                        [65535usize, 65536, 65537, 70000][t.below(4)]
+                    }
                 } else {
                     t.len(6, 300)
                 };
